@@ -41,7 +41,11 @@ def bb(e, an=None):
 def fstate(o, fld):
     """state of field `fld` of Board object o (looking through updates of other fields)"""
     from .expr import mk_field
-    return mk_field(o, fld, _AN[0])
+    r = mk_field(o, fld, _AN[0])
+    if r == ('field', o, fld):
+        return r
+    # the read went through an update / a named merge value: canonicalise what it found
+    return _bb(norm(r))
 
 
 def _key(x):
